@@ -165,14 +165,20 @@ WrapLines(ch, w, lines) ==
        IN WrapLines(G.rest, w, IF cur2 = <<>> THEN lines ELSE Append(lines, cur2))
 Wrap(chunks, w) == WrapLines(chunks, w, <<>>)
 
-\* a line is put together from segments [b, s]: b blanks followed by the characters s ("" = nothing)
-Seg(b, s) == [b |-> b, s |-> s]
+\* a line is put together from segments [b, s, inv]: b blanks followed by the characters s ("" = nothing);
+\* inv: characters that take no room follow (a style tag on its own) - blanks in front of them are not "trailing"
+\* for str.rstrip(), which the components apply before the text is formatted
+Seg(b, s) == [b |-> b, s |-> s, inv |-> FALSE]
+InvSeg == [b |-> 0, s |-> "", inv |-> TRUE]
 MkLine(segs, stripped) ==
-  LET r == FoldLeft(LAMBDA acc, x : IF x.s = "" THEN [acc EXCEPT !.pend = @ + x.b]
-                                      ELSE [g |-> Append(acc.g, acc.pend + x.b), w |-> Append(acc.w, x.s), pend |-> 0],
-                    [g |-> <<>>, w |-> <<>>, pend |-> 0], segs)
-  IN [g |-> r.g, w |-> r.w, tail |-> IF stripped THEN 0 ELSE r.pend]
-LineSegs(chunks) == [j \in 1..Len(chunks) |-> IF chunks[j].ws THEN Seg(Len(chunks[j].r), "") ELSE Seg(0, Vis(chunks[j]))]
+  LET r == FoldLeft(LAMBDA acc, x : IF x.inv THEN [acc EXCEPT !.keep = acc.pend]
+                                      ELSE IF x.s = "" THEN [acc EXCEPT !.pend = @ + x.b]
+                                      ELSE [g |-> Append(acc.g, acc.pend + x.b), w |-> Append(acc.w, x.s), pend |-> 0, keep |-> 0],
+                    [g |-> <<>>, w |-> <<>>, pend |-> 0, keep |-> 0], segs)
+  IN [g |-> r.g, w |-> r.w, tail |-> IF stripped THEN r.keep ELSE r.pend]
+LineSegs(chunks) ==
+  [j \in 1..Len(chunks) |-> IF chunks[j].ws THEN Seg(Len(chunks[j].r), "")
+                            ELSE LET v == Vis(chunks[j]) IN IF v = "" /\ chunks[j].r # "" THEN InvSeg ELSE Seg(0, v)]
 EmptyLn == [g |-> <<>>, w |-> <<>>, tail |-> 0]
 
 \* ------------------------------------------------------------------ A-layer: components
